@@ -289,6 +289,13 @@ func (n *Node) Close() {
 		current = nil
 	}
 	n.Store.Close()
+	// ChainStore.Close leaves the legacy leveldb ("chain/") open; a restart on the same directory needs it released
+	if c, ok := n.Store.(interface{ CloseLeveldb() }); ok {
+		func() {
+			defer func() { recover() }()
+			c.CloseLeveldb()
+		}()
+	}
 }
 
 // ---------------------------------------------------------------- queries
